@@ -837,11 +837,54 @@ Definition ev_guard (v : variant) (san : bytes -> bytes) (e : event) : Prop :=
   | _ => True
   end.
 
+Lemma files_rows_app v san a b : files_rows v san (a ++ b) = files_rows v san a ++ files_rows v san b.
+Proof. unfold files_rows. apply flat_map_app. Qed.
+
 Definition extends (s s' : state) (E : list entry) : Prop :=
-  s_files s' = s_files s /\ s_due s' = s_due s /\ s_pend s' = s_pend s /\ s_run s' = s_run s /\
+  s_rot s' = s_rot s /\ s_due s' = s_due s /\ s_pend s' = s_pend s /\ s_run s' = s_run s /\
   s_gate s' = s_gate s /\
-  (if s_gate s then s_act s' = s_act s ++ E /\ s_chan s' = s_chan s
-   else s_act s' = s_act s /\ s_chan s' = s_chan s ++ E).
+  (if s_gate s then (s_files s', s_act s') = log_append (s_rot s) (s_files s) (s_act s) E /\ s_chan s' = s_chan s
+   else (s_files s', s_act s') = (s_files s, s_act s) /\ s_chan s' = s_chan s ++ E).
+
+Lemma log_append_app rot : forall E1 E2 files act,
+  log_append rot files act (E1 ++ E2) =
+  log_append rot (fst (log_append rot files act E1)) (snd (log_append rot files act E1)) E2.
+Proof.
+  induction E1 as [|e E1 IH]; intros E2 files act; [reflexivity|].
+  cbn [app log_append]. destruct rot; apply IH.
+Qed.
+
+(* appending good entries - with or without rotation - keeps the log good and adds exactly their rows *)
+Lemma log_append_facts v san rot : forall es files act,
+  Forall (Forall (good v san)) files -> Forall (good v san) act -> Forall (good v san) es ->
+  Forall (Forall (good v san)) (fst (log_append rot files act es)) /\
+  Forall (good v san) (snd (log_append rot files act es)) /\
+  files_rows v san (fst (log_append rot files act es)) ++ frows v san (snd (log_append rot files act es))
+  = files_rows v san files ++ frows v san act ++ frows v san es.
+Proof.
+  induction es as [|e es IH]; intros files act Hf Ha He.
+  - cbn [log_append fst snd]. rewrite frows_nil, app_nil_r. auto.
+  - inversion He as [|? ? He1 He2]; subst. cbn [log_append].
+    assert (Hae : Forall (good v san) (act ++ [e])) by (apply Forall_app; split; [exact Ha|constructor; [exact He1|constructor]]).
+    assert (Hcons : frows v san (e :: es) = frows v san [e] ++ frows v san es)
+      by (apply (frows_app v san [e] es); [constructor; [exact He1|constructor]|exact He2]).
+    destruct rot.
+    + destruct (IH (files ++ [act ++ [e]]) [] (proj2 (Forall_app _ _ _) (conj Hf (Forall_cons _ Hae (Forall_nil _))))
+                  (Forall_nil _) He2) as [I1 [I2 I3]].
+      split; [exact I1|]. split; [exact I2|]. rewrite I3, files_rows_app.
+      unfold files_rows at 2. cbn [flat_map]. rewrite frows_nil, app_nil_r.
+      rewrite (frows_app v san act [e] Ha (Forall_cons _ He1 (Forall_nil _))), Hcons.
+      rewrite <- !app_assoc. reflexivity.
+    + destruct (IH files (act ++ [e]) Hf Hae He2) as [I1 [I2 I3]].
+      split; [exact I1|]. split; [exact I2|]. rewrite I3.
+      rewrite (frows_app v san act [e] Ha (Forall_cons _ He1 (Forall_nil _))), Hcons.
+      rewrite <- !app_assoc. reflexivity.
+Qed.
+
+Lemma buffer_add_rot s d b replayed : s_rot (buffer_add s d b replayed) = s_rot s.
+Proof.
+  unfold buffer_add. destruct (lookup dir_eqb d (s_sigs s)) as [sg|]; [destruct (sig_eqb sg (snd b))|]; reflexivity.
+Qed.
 
 Lemma cov_mono v s s' :
   sub_ms (s_store s) (s_store s') -> sub_ms (tot s) (tot s') -> sub_ms (cov v s) (cov v s').
@@ -867,7 +910,8 @@ Proof.
   split; [reflexivity|].
   cbn [s_files s_act s_chan s_due s_pend s_run s_gate s_store s_rbuf] in *.
   split.
-  { unfold extends. rewrite A1, A2, A3, A4, A5, A6, A7. cbn. destruct (s_gate s); repeat split. }
+  { unfold extends. rewrite buffer_add_rot, A1, A2, A3, A4, A5, A6, A7. cbn.
+    destruct (s_gate s); repeat split. symmetry. apply surjective_pairing. }
   split; [exact Hgood|]. split; [exact Hrows|].
   split.
   - apply cov_mono; [exact B|]. cbn [fst] in C. unfold tot in *. cbn in *. ms.
@@ -877,9 +921,10 @@ Qed.
 Lemma extends_trans s s1 s2 E1 E2 : extends s s1 E1 -> extends s1 s2 E2 -> extends s s2 (E1 ++ E2).
 Proof.
   unfold extends. intros [A1 [A2 [A3 [A4 [A5 A6]]]]] [B1 [B2 [B3 [B4 [B5 B6]]]]].
-  rewrite A5 in B6. repeat split; try congruence.
-  destruct (s_gate s); destruct A6 as [X Y]; destruct B6 as [X' Y']; split; try congruence;
-    rewrite ?X', ?Y', ?X, ?Y, ?app_assoc; reflexivity.
+  rewrite A5, A1 in B6. repeat split; try congruence.
+  destruct (s_gate s); destruct A6 as [X Y]; destruct B6 as [X' Y'].
+  - split; [|congruence]. rewrite log_append_app, <- X. cbn [fst snd]. exact X'.
+  - split; [congruence|]. rewrite Y', Y, app_assoc. reflexivity.
 Qed.
 
 Lemma write_all_ok v san now ws : forall s,
@@ -906,8 +951,6 @@ Proof.
       repeat split; try constructor; apply sub_ms_refl.
 Qed.
 
-Lemma files_rows_app v san a b : files_rows v san (a ++ b) = files_rows v san a ++ files_rows v san b.
-Proof. unfold files_rows. apply flat_map_app. Qed.
 
 Lemma flush_facts v s :
   same_log s (flush s) /\ sub_ms (s_store s ++ s_rbuf s) (s_store (flush s)) /\ s_rbuf (flush s) = [] /\
@@ -915,6 +958,15 @@ Lemma flush_facts v s :
 Proof.
   split; [apply same_log_set_buffers|]. unfold flush, cov, rb. cbn.
   repeat split; destruct (v_flush_before_delete v); ms.
+Qed.
+
+Definition readable (v : variant) (f : list entry) : bool :=
+  existsb (fun e => match read_entry v e with Some _ => true | None => false end) f.
+
+Lemma replay_unreadable v san now f : readable v f = false -> replay_file v san now f = ([], true).
+Proof.
+  unfold readable. induction f as [|e f IH]; [reflexivity|].
+  cbn [existsb replay_file]. destruct (read_entry v e); [discriminate|]. exact IH.
 Qed.
 
 (* recovery over the remaining files keeps every owed row covered *)
@@ -935,15 +987,20 @@ Proof.
     destruct (replay_good_file v san f Hf now) as [bs [Hbs Hrows]]. rewrite Hbs.
     destruct (rebuffer_mono s bs) as [[A1 [A2 [A3 [A4 [A5 [A6 A7]]]]]] [Hst Htot]].
     set (s1 := rebuffer s bs) in *.
-    set (s2 := if v_flush_before_delete v then flush s1 else s1).
-    assert (Hs2 : same_log s s2 /\ sub_ms (cov v s ++ frows v san f) (cov v s2)).
-    { unfold s2. destruct (v_flush_before_delete v) eqn:Ef.
+    fold (readable v f).
+    set (s2 := if v_flush_before_delete v && readable v f then flush s1 else s1).
+    assert (Hs2 : same_log s s2 /\ sub_ms (cov v s ++ frows v san f) (cov v s2) /\ sub_ms (s_store s) (s_store s2)).
+    { unfold s2. destruct (v_flush_before_delete v) eqn:Ef; [destruct (readable v f) eqn:Erd|]; cbn [andb].
       - destruct (flush_facts v s1) as [[B1 [B2 [B3 [B4 [B5 [B6 B7]]]]]] [C [D E]]].
         split; [unfold same_log; repeat split; congruence|].
-        unfold cov, rb. rewrite Ef. unfold tot in Htot. rewrite Hrows in Htot. ms.
+        unfold cov, rb. rewrite Ef. unfold tot in Htot. rewrite Hrows in Htot. split; ms.
+      - (* nothing decodable in this file: nothing was re-buffered *)
+        rewrite (replay_unreadable v san now f Erd) in Hbs. inversion Hbs; subst bs.
+        split; [unfold same_log; repeat split; congruence|].
+        unfold cov, rb. rewrite Ef. rewrite <- Hrows. unfold batch_rows. cbn [flat_map]. split; ms.
       - split; [unfold same_log; repeat split; congruence|].
-        unfold cov, rb. rewrite Ef. unfold tot in Htot. rewrite Hrows in Htot. ms. }
-    destruct Hs2 as [[B1 [B2 [B3 [B4 [B5 [B6 B7]]]]]] Hcov].
+        unfold cov, rb. rewrite Ef. unfold tot in Htot. rewrite Hrows in Htot. split; ms. }
+    destruct Hs2 as [[B1 [B2 [B3 [B4 [B5 [B6 B7]]]]]] [Hcov Hx]].
     assert (Hdue2 : sub_ms (s_due s2) (cov v s2 ++ files_rows v san kept ++ files_rows v san rest ++ frows v san (s_act s2))).
     { rewrite B4, B2. unfold files_rows in *. cbn [flat_map] in Hdue. ms. }
     destruct n as [|[|n']].
@@ -959,8 +1016,6 @@ Proof.
       * constructor.
       * rewrite B4. unfold cov, rb in *. cbn [s_store s_rbuf s_files s_act]. unfold files_rows in *.
         rewrite !flat_map_app. cbn [flat_map] in *. rewrite B2 in *. rewrite Hq in *.
-        assert (Hx : sub_ms (s_store s) (s_store s2)).
-        { unfold s2. rewrite Hq. destruct (flush_facts v s1) as [_ [C _]]. ms. }
         clear Hcov Hdue2. ms.
       * unfold frows. cbn. ms.
       * intros _. repeat split.
@@ -988,7 +1043,7 @@ Qed.
 Lemma step_inv v san s e :
   Inv v san s -> ev_guard v san e -> quiet_at v s e -> Inv v san (step v san s e).
 Proof.
-  intros HI G Q. pose proof HI as [If Ia Ic Id Ip Ii]. destruct e as [hold repl|now ws tail_ok| | |now n|]; cbn [step].
+  intros HI G Q. pose proof HI as [If Ia Ic Id Ip Ii]. destruct e as [hold repl rot|now ws tail_ok| | |now n|]; cbn [step].
   - (* start *)
     destruct (s_run s) eqn:Er; [exact HI|].
     destruct (Ii eq_refl) as [Ea [Ec [Erb Epd]]].
@@ -1004,37 +1059,47 @@ Proof.
     cbn [ev_guard] in G.
     destruct (write_all_ok v san now ws s G) as [rows [s1 [E [ok [Hw [[X1 [X2 [X3 [X4 [X5 X6]]]]] [Hg [Hfr [Hc Hr]]]]]]]]].
     rewrite Hw.
+    assert (L : Forall (Forall (good v san)) (s_files s1) /\ Forall (good v san) (s_act s1) /\
+                Forall (good v san) (s_chan s1) /\
+                (if s_gate s
+                 then files_rows v san (s_files s1) ++ frows v san (s_act s1)
+                      = files_rows v san (s_files s) ++ frows v san (s_act s) ++ rows /\ s_chan s1 = s_chan s
+                 else files_rows v san (s_files s1) ++ frows v san (s_act s1)
+                      = files_rows v san (s_files s) ++ frows v san (s_act s) /\
+                      frows v san (s_chan s1) = frows v san (s_chan s) ++ rows)).
+    { destruct (s_gate s); destruct X6 as [Y1 Y2].
+      - destruct (log_append_facts v san (s_rot s) E (s_files s) (s_act s) If Ia Hg) as [F1 [F2 F3]].
+        rewrite <- Y1 in F1, F2, F3. cbn [fst snd] in F1, F2, F3.
+        rewrite Y2, <- Hfr. auto.
+      - inversion Y1 as [[Yf Ya]]. rewrite Yf, Ya, Y2.
+        repeat split; try assumption; [apply Forall_app; split; assumption|].
+        rewrite frows_app by assumption. congruence. }
+    destruct L as [Lf [La [Lc Lr]]].
     assert (I1 : Inv v san s1).
-    { constructor.
-      - rewrite X1. exact If.
-      - destruct (s_gate s); destruct X6 as [Y1 Y2]; rewrite Y1; [apply Forall_app; split|]; assumption.
-      - destruct (s_gate s); destruct X6 as [Y1 Y2]; rewrite Y2; [|apply Forall_app; split]; assumption.
-      - rewrite X2, X1.
-        destruct (s_gate s); destruct X6 as [Y1 Y2]; rewrite Y1; [rewrite frows_app by assumption|]; ms.
-      - rewrite X3.
-        destruct (s_gate s); destruct X6 as [Y1 Y2]; rewrite Y2; [|rewrite frows_app by assumption]; ms.
-      - rewrite X4, Er. discriminate. }
+    { constructor; [exact Lf|exact La|exact Lc| | |rewrite X4, Er; discriminate].
+      - rewrite X2. destruct (s_gate s); destruct Lr as [Lr1 Lr2]; rewrite Lr1; ms.
+      - rewrite X3. destruct (s_gate s); destruct Lr as [Lr1 Lr2]; [rewrite Lr2|rewrite Lr2]; ms. }
     destruct (ok && tail_ok); [|exact I1].
     destruct I1 as [If1 Ia1 Ic1 Id1 Ip1 Ii1].
-    constructor; cbn.
+    constructor; unfold add_due, cov, rb in *; cbn [s_files s_act s_chan s_due s_pend s_run s_gate s_store s_rbuf].
     + exact If1.
     + exact Ia1.
     + exact Ic1.
     + rewrite X5. destruct (s_gate s) eqn:Eg.
-      * destruct X6 as [Y1 Y2]. rewrite X2, X1, Y1, frows_app, Hfr by assumption.
-        unfold cov, rb in *. cbn. ms.
+      * destruct Lr as [Lr1 Lr2]. rewrite X2, Lr1. rewrite X2, Lr1 in Id1. ms.
       * exact Id1.
     + rewrite X5. destruct (s_gate s) eqn:Eg.
       * exact Ip1.
-      * destruct X6 as [Y1 Y2]. rewrite X3, Y2, frows_app, Hfr by assumption. ms.
+      * destruct Lr as [Lr1 Lr2]. rewrite X3, Lr2. ms.
     + intros E0. rewrite X4, Er in E0. discriminate.
   - (* persist *)
     destruct (s_run s) eqn:Er; [|exact HI].
-    constructor; cbn.
-    + exact If.
-    + apply Forall_app; split; assumption.
+    destruct (log_append_facts v san (s_rot s) (s_chan s) (s_files s) (s_act s) If Ia Ic) as [F1 [F2 F3]].
+    constructor; unfold persist, cov, rb in *; cbn [s_files s_act s_chan s_due s_pend s_run s_gate s_store s_rbuf].
+    + exact F1.
+    + exact F2.
     + constructor.
-    + rewrite frows_app by assumption. unfold cov, rb in *. cbn. ms.
+    + rewrite F3. ms.
     + intros x; cbn; lia.
     + rewrite Er; discriminate.
   - (* flush *)
@@ -1097,7 +1162,7 @@ Proof.
   match goal with |- context [recover_files v san now ?s2 rest kept 0] =>
     destruct (IH kept s2 Hrest) as [C1 [C2 [C3 C4]]];
     assert (Hs2 : s_act s2 = s_act s /\ s_due s2 = s_due s /\ s_run s2 = s_run s)
-      by (destruct (v_flush_before_delete v); cbn; repeat split; congruence)
+      by (destruct (v_flush_before_delete v && _); cbn; repeat split; congruence)
   end.
   destruct Hs2 as [D1 [D2 D3]]. cbv zeta in *. repeat split; congruence.
 Qed.
@@ -1113,7 +1178,7 @@ Proof.
   assert (R1 : s_run s1 = false /\ s_due s1 = s_due s).
   { unfold s1. cbn [step]. unfold crash. destruct (s_run s) eqn:Er; cbn; auto. }
   destruct R1 as [R1 D1].
-  set (s2 := step v san s1 (EStart false false)).
+  set (s2 := step v san s1 (EStart false false false)).
   assert (I2 : Inv v san s2) by (apply step_inv; [exact I1|exact I|left + right; exact I || (right; exact I)]).
   assert (R2 : s_run s2 = true /\ s_due s2 = s_due s1 /\ s_act s2 = [] /\ s_files s2 = s_files s1).
   { unfold s2. cbn [step]. rewrite R1. cbn. auto. }
@@ -1498,7 +1563,7 @@ Proof. intros v. destruct v as [[] [] [] [] [] [] [] []]; vm_compute; split; ref
 
 (* the crash window: write, crash, restart and replay, crash again before the flush *)
 Definition h_window : list event :=
-  [EStart false false; EWrite 0 [w_plain] true; ECrash; EStart false false; ERecover 0 0].
+  [EStart false false false; EWrite 0 [w_plain] true; ECrash; EStart false false false; ERecover 0 0].
 
 Lemma plain_guard v : write_guard v idsan 0 w_plain.
 Proof.
@@ -1526,7 +1591,7 @@ Qed.
 
 (* a rejected write poisons the WAL file: the acknowledged write after it is never replayed *)
 Definition h_poison : list event :=
-  [EStart false false; EWrite 0 [w_poison] true; EWrite 0 [w_plain] true].
+  [EStart false false false; EWrite 0 [w_poison] true; EWrite 0 [w_plain] true].
 
 Lemma poison_refuted : forall v, v_convert_first v = false ->
   List.length (s_due (run_events v idsan st0 h_poison)) = 1%nat /\
